@@ -293,10 +293,15 @@ def run(chk, replay=None):
         objs = [cat]
         calls = []
         failed = None
-        for _ in range(rng.randint(1, 5)):
+        scripted = (not dedicated) and t % 8 == 1
+        for _ in range(rng.randint(1, 5) if not scripted else rng.randint(2, 5)):
             oi = rng.randrange(len(objs))
             inplace = rng.random() < 0.5
-            k = rng.choice(['one', 'list', 'list', 'spatial', 'stored', 'load'])
+            k = rng.choice(['one', 'list', 'list', 'spatial', 'stored', 'load', 'empty'])
+            if scripted and len(calls) < 2:
+                # a filtered COPY is taken first, then the original is filtered with the empty statement list (in place): the
+                # original must still hold every event
+                oi, inplace, k = 0, bool(len(calls)), ['one', 'empty'][len(calls)]
             first_dedicated = dedicated and not calls
             if first_dedicated:
                 k = ['one', 'list', 'stored', 'load'][t % 4]
@@ -304,7 +309,7 @@ def run(chk, replay=None):
                 k = 'spatial'          # (... and every other such trace starts with the spatial filter)
             if k == 'load':
                 inplace = False
-            idx = [rng.randrange(m) + 1] if k == 'one' else ([] if k == 'spatial' else [rng.randrange(m) + 1 for _ in range(rng.randint(1, 3))])
+            idx = [rng.randrange(m) + 1] if k == 'one' else ([] if k in ('spatial', 'empty') else [rng.randrange(m) + 1 for _ in range(rng.randint(1, 3))])
             if first_dedicated:
                 idx = [1] + (idx[1:] if k != 'one' else [])
             strs = [statement(st_attrs[j - 1], st_ops[j - 1], thr[j - 1], use_dt[j - 1], style=t + j + len(calls)) for j in idx]
@@ -316,6 +321,9 @@ def run(chk, replay=None):
                 r = guarded(o.filter, strs[0], in_place=inplace_arg)
             elif k == 'list':
                 r = guarded(o.filter, strs if rng.random() < 0.5 else tuple(strs), in_place=inplace_arg)
+            elif k == 'empty':
+                # the smallest statement list: all of no statements are true, every event stays (whatever an earlier call recorded)
+                r = guarded(o.filter, [] if len(calls) % 2 else (), in_place=inplace_arg)
             elif k == 'load':
                 # the loader's own filtering: the object is written out and read back with apply_filters=True
                 import csep as _csep
@@ -328,14 +336,14 @@ def run(chk, replay=None):
             chk.count()
             if isinstance(r, Raised):
                 failed = repr(r)
-                calls.append({'k': 'list' if k in ('stored', 'load') else k, 'idx': idx, 'inplace': inplace, 'obj': oi + 1, 'ret': [-1],
+                calls.append({'k': 'list' if k in ('stored', 'load', 'empty') else k, 'idx': idx, 'inplace': inplace, 'obj': oi + 1, 'ret': [-1],
                               'objs': [ids_of(x) for x in objs]})
                 break
             if not inplace:
                 objs.append(r)
             elif r is not o:
                 objs[oi] = r
-            calls.append({'k': 'list' if k in ('stored', 'load') else k, 'idx': idx, 'inplace': inplace, 'obj': oi + 1, 'ret': ids_of(r),
+            calls.append({'k': 'list' if k in ('stored', 'load', 'empty') else k, 'idx': idx, 'inplace': inplace, 'obj': oi + 1, 'ret': ids_of(r),
                           'objs': [ids_of(x) for x in objs]})
         traces.append({'stmts': st_ops, 'events': events, 'calls': calls})
         metas.append({'n': n, 'region': region_kind, 'statements': [statement(st_attrs[j], st_ops[j], thr[j], use_dt[j]) for j in range(m)],
